@@ -58,9 +58,9 @@ using namespace SymEngine;
 // gets std::bad_alloc / std::length_error (a std::exception = allowed outcome), but ASan's operator new
 // aborts the process instead ("allocation-size-too-big").  Replacing the replaceable operators by
 // malloc-based ones (ASan still instruments malloc/free: overflow and use-after-free detection is
-// unchanged) restores the real behaviour: a request above 1 GiB, or a failed malloc, throws
+// unchanged) restores the real behaviour: a request above 64 MiB (units are <= 1 KiB), or a failed malloc, throws
 // std::bad_alloc.
-static const size_t kMaxNew = (size_t)1 << 30;
+static const size_t kMaxNew = (size_t)1 << 26;
 static void *checked_alloc(size_t n)
 {
     if (n > kMaxNew)
